@@ -12,7 +12,12 @@ Pipeline (DESIGN.md 7/C01):
         P1  every OFFERED path carries a packet to ForwardLocal in the destination AS
             (ScionNetworkSim::<SpecRoutingLogic>, real AES-CMAC keys, MACs verified),
         P2  the path of the DELIVERED packet, reversed with ScionPath::try_reverse, carries the reply back,
-        P3  a pair whose segments can be joined (reference: some candidate combination exists) gets >= 1 path.
+        P3  a pair whose segments can be joined (reference: some candidate combination exists) gets >= 1 path;
+            for a wildcard destination (any core AS of an ISD) the segments listed by the control plane must reach
+            some core AS of it whenever the reference does.
+     The segment REQUEST PLAN (spec/ScionNet/SegPlan.tla): TLC checks on every instance that the lookups of the decision
+     table lose no route (PlanSufficient, PlanSufficientAny); the table is compared with ListSegmentPlan::new and the
+     fetched segment sets with pocketscion's endhost_list_segments (conformance: DRIFT).
      A failing path is localised (beacon extension / combinator / simulator) by chain-rule MAC facts, by comparing
      the offered header with the reference pieces, and by running the reference packet built from spec-correct
      segments; the violation key names class and components.
@@ -40,7 +45,7 @@ def run(c):
                      "topology of the family (T(<=3)+shapes quick; +T(4), parallel links thorough) in two segment profiles; "
                      "non-trivial = path with >= 2 segments or an on-path/shortcut/peering cut; distinct = by (topology, interface sequence, profile)")
     topos = sn.family(c)
-    insts, r, failed = sn.generate(c, topos, attacks=False)
+    insts, r, failed = sn.generate(c, topos, attacks=False, plans=True)
     sn.design_theorems(c, r, failed, len(topos), len(insts))
     sn.oracle_selfcheck(c)
     # the Router as a state machine: every reference path forward, turned around at the receiver, and back
@@ -56,6 +61,9 @@ def run(c):
     c.cov["distinct_nontrivial"] = tot["c01:nontrivial"]
     c.cov["by_class"] = {k[len("c01:class:"):]: v for k, v in tot.items() if k.startswith("c01:class:")}
     c.cov["pairs"] = tot["pairs"]
+    c.cov["request_plan"] = {k[len("plan:"):]: v for k, v in tot.items() if k.startswith("plan:")}
+    if not any(i["plans"] for i in insts) or not insts[0]["plantable"]:
+        c.fail_tool("vacuous: Gen_ScionNet printed no request plans")
     c.cov["reference_paths"] = tot["ref_paths"]
     c.cov["reference_by_class"] = sn.require_reference_classes(c, insts)
     ex = insts[len(insts) // 2]
@@ -71,5 +79,5 @@ def run(c):
         c.cov["traces_validated_against_impl"] = res2["injects"]
     c.cov["evaluations"] += res2["steps"]
     c.cov["distinct_nontrivial"] += res2["nontrivial"]
-    c.cov["trace_stats"] = {k: res2[k] for k in ("topologies", "pairs", "offered", "events", "steps", "injects")}
+    c.cov["trace_stats"] = {k: res2[k] for k in ("topologies", "pairs", "offered", "events", "steps", "injects", "by_cls")}
     c.sample({"trace_events": "topo / seg (MAC facts) / offered / inject / step, see spec/ScionNet/Trace_ScionNet.tla", "by_fam": res2["by_fam"]})
